@@ -211,11 +211,11 @@ def fit_jobs(run):
                 ("caltrack", "caltrack")]
     else:
         plan = []
-        for i in range(max(3, int(40 * scale()))):
+        for i in range(max(3, int(32 * scale()))):
             plan.append(("daily", list(c01fits.DAILY_PROFILES)[i % len(c01fits.DAILY_PROFILES)]))
             plan.append(("billing", list(c01fits.BILLING_PROFILES)[i % len(c01fits.BILLING_PROFILES)]))
             plan.append(("hourly", list(c01fits.HOURLY_PROFILES)[i % len(c01fits.HOURLY_PROFILES)]))
-        plan += [("caltrack", "caltrack")] * max(1, int(12 * scale()))
+        plan += [("caltrack", "caltrack")] * max(1, int(10 * scale()))
     # longest first
     order = {"caltrack": 0, "daily": 1, "hourly": 2, "billing": 3}
     jobs = [{"family": f, "profile": p, "seed": r.randrange(2**31)} for f, p in plan]
@@ -281,7 +281,7 @@ def main():
             corpus = os.path.join(vlib.VERIF, "corpus", "C01.json")
             if os.path.exists(corpus):
                 cases += json.load(open(corpus))
-            n = run.n(260, max(300, int(12500 * scale())))
+            n = run.n(260, max(300, int(9000 * scale())))
             for k in range(n):
                 cases.append(c01lib.gen_doc(run.rng, k, splits, corner=(k % 97 == 13)))
             for i, c in enumerate(cases):
